@@ -192,6 +192,23 @@ func (vc *VC) evalDesignator(sc *Scope, d Expr) (out []modLoc, ok bool) {
 			out = append(out, modLoc{heap: hn, sort: hs, member: exact(obj)})
 		}
 	}
+	if call, isCall := d.(ECall); isCall {
+		if id, isId := call.Fun.(EIdent); isId && id.Name == "elems" && len(call.Args) == 1 {
+			// elems(type([]T)): the elements of every []T
+			tt, isT := call.Args[0].(ETypeTag)
+			if !isT {
+				sfail("elems(type([]T)) expected")
+			}
+			st, isSlice := sc.resolveType(tt.T).Underlying().(*types.Slice)
+			if !isSlice {
+				sfail("elems() needs a slice type")
+			}
+			for _, h := range vc.elemHeaps(st.Elem()) {
+				out = append(out, modLoc{heap: h.name, sort: h.sort, member: func(r Term) Term { return True }})
+			}
+			return out, true
+		}
+	}
 	switch x := d.(type) {
 	case EField:
 		// type-level designator  T.f / T.f.g : field f of every object of type T
